@@ -78,15 +78,36 @@ def refine_cache(rep):
         skips = [n for n in walk_local(lp) if isinstance(n, (ast.Break,))]
         rep.ob("O18.2", "R12", fi, not skips, lp.iter, "every cell is refined in every round", node=lp)
     wl = [l for l in walk_local(fi.node) if isinstance(l, ast.While)]
-    okw = False
-    if len(wl) == 1 and isinstance(wl[0].test, ast.Name):
-        flag = wl[0].test.id
-        sets = [n for n in walk_local(wl[0]) if isinstance(n, ast.Assign) and norm(n.targets[0]) == flag]
-        trues = [n for n in sets if is_const(n.value, True)]
-        # the flag is raised exactly where a cell splits (more than one signature group)
-        okw = bool(trues) and all(isinstance(n.value, ast.Constant) for n in sets) and all(
-            any(s_ and pmatch("len($g) > 1", t) is not None and pmatch("len($g) > 1", t)["g"] in gnames for t, s_ in guards_of(pm, n, wl[0])) for n in trues) \
-            and not [n for n in walk_local(wl[0]) if isinstance(n, ast.Break)]
+    okw = None
+    if len(wl) == 1:
+        w = wl[0]
+        # the "a cell split in this round" flag: lowered at the start of every round, raised exactly where a cell splits
+        consts = {}
+        for n in walk_local(w):
+            if isinstance(n, ast.Assign) and isinstance(n.targets[0], ast.Name) and isinstance(n.value, ast.Constant) and isinstance(n.value.value, bool):
+                consts.setdefault(n.targets[0].id, []).append(n)
+        flags = [nm for nm, sets in consts.items() if any(x.value.value for x in sets) and any(not x.value.value for x in sets)
+                 and not [x for x in walk_local(w) if isinstance(x, (ast.Assign, ast.AugAssign)) and x not in sets and norm(x.targets[0] if isinstance(x, ast.Assign) else x.target) == nm]]
+        if len(flags) == 1:
+            flag = flags[0]
+            sets = consts[flag]
+            trues = [n for n in sets if n.value.value]
+            falses = [n for n in sets if not n.value.value]
+            cell_loops = [l for l in w.body if isinstance(l, ast.For)]
+
+            def split_guard(t, s_):
+                for pat in ("len($g) > 1", "len($g) != 1", "len($g) >= 2"):
+                    m_ = pmatch(pat, t)
+                    if m_ is not None and s_ and m_["g"] in gnames:
+                        return True
+                return False
+            raised = bool(trues) and all(any(split_guard(t, s_) for t, s_ in guards_of(pm, n, w)) for n in trues)
+            lowered = len(falses) == 1 and any(falses[0] is st for st in w.body) and bool(cell_loops) and falses[0].lineno < cell_loops[0].lineno
+            # the loop is left only when the flag is down: by the loop test, or by a break / return under `not flag` after the cells were refined
+            exits = [n for n in walk_local(w) if isinstance(n, (ast.Break, ast.Return))]
+            exits_ok = all(any(norm(t) == flag and not s_ for t, s_ in guards_of(pm, n, w)) and cell_loops and n.lineno > cell_loops[-1].lineno for n in exits)
+            test_ok = (isinstance(w.test, ast.Name) and w.test.id == flag) or (isinstance(w.test, ast.Constant) and w.test.value is True and bool(exits))
+            okw = raised and lowered and exits_ok and test_ok and not w.orelse
     rep.ob("O18.2", "R12", fi, okw, wl[0].test if wl else "while", "refinement runs until no cell splits")
 
 
@@ -109,7 +130,7 @@ def labels(rep):
     ip = rep.f(CN, K + "_init_part")
     ok, construct = C.initial_partition_sorted(ip, "node_attr_keys")
     rep.ob("O18.2", "R12", ip, ok, construct, "initial cells are ordered by their attribute key (not by insertion order)")
-    sig_keys = [n for n in walk_local(sig.node) if isinstance(n, ast.Attribute) and n.attr in ("node_attr_keys", "edge_attr_keys")]
+    sig_keys = [n for n in walk_local(sig.node, into_nested=True) if isinstance(n, ast.Attribute) and n.attr in ("node_attr_keys", "edge_attr_keys")]
     rep.ob("O18.2", "R12", sig, {n.attr for n in sig_keys} == {"node_attr_keys", "edge_attr_keys"}, sorted({n.attr for n in sig_keys}),
            "the refinement looks at the same node and arc keys as the label")
 
@@ -119,12 +140,11 @@ def search(rep):
     for name, ok, construct, what, node in C.ir_search_shape(fi):
         rep.ob("O18.2", "R16", fi, ok, construct, what, node=node)
     defs = local_defs(fi.node)
-    labs = pfind(f"$l = self._label({fi.params[1]}, $p)", fi.node)
+    labs = [c for c in walk_local(fi.node) if isinstance(c, ast.Call) and pmatch(f"self._label({fi.params[1]}, $$p)", c) is not None]
     rep.need("R16", len(labs), 1, "lab = self._label(G, perm) at the leaf")
-    perm = [d for d in defs.get(labs[0][1]["p"], []) if d.kind == "assign"]
-    rep.need("R16", len(perm), 1, "perm = prefix + flatten(part)")
-    cls, why = C.classify_order(defs, perm[0].value)
-    rep.ob("O18.3", "R14", fi, cls in ("BIJECTIVE", "DUPLICATE"), perm[0].stmt,
+    pexpr = origin(defs, labs[0].args[1])
+    cls, why = C.classify_order(defs, pexpr)
+    rep.ob("O18.3", "R14", fi, cls in ("BIJECTIVE", "DUPLICATE"), pexpr,
            "a leaf's order ends with the flattened discrete partition, so every node has a well-defined last position", {"class": cls, "why": why})
 
 
@@ -173,14 +193,23 @@ def siblings(rep):
     rep.ob("O18.4", "R2", gm, norm(s.g1) == norm(s.g2), s.call, "automorphisms: the view is matched against itself", node=s.call)
     g = origin(local_defs(gm.node), s.g1)
     rep.ob("O18.4", "R2", gm, norm(g) == "self.G", g, "the matched graph is the network's own view")
-    rep.ob("O18.4", "R13", gm, s.node_match is not None and norm(s.node_match) == "self._matcher", s.call, "nodes are compared with the configured node keys", node=s.call)
+    # node_match is the attribute __init__ sets to _node_match(self.node_attr_keys)
+    nm_ok = False
+    if s.node_match is not None and isinstance(s.node_match, ast.Attribute) and norm(s.node_match.value) == "self":
+        sets_ = [n for n in walk_local(init_a.node) if isinstance(n, ast.Assign) and norm(n.targets[0]) == norm(s.node_match)]
+        nm_ok = len(sets_) == 1 and pmatch("_node_match(self.node_attr_keys)", sets_[0].value) is not None
+    elif s.node_match is not None:
+        nm_ok = pmatch("_node_match(self.node_attr_keys)", s.node_match) is not None
+    rep.ob("O18.4", "R13", gm, nm_ok, s.call, "nodes are compared with the configured node keys", node=s.call)
     em = s.edge_match
     keys = None
     if isinstance(em, ast.Call) and call_name(em) == "_node_match" and em.args:
         try:
             keys = const(em.args[0])
         except ValueError:
-            keys = None
+            # a module-level constant
+            from ..absval import module_constants
+            keys = module_constants(gm.module.tree).get(norm(em.args[0])) if isinstance(em.args[0], ast.Name) else None
     elif isinstance(em, ast.Attribute):
         # self._edge_matcher = _node_match(self.edge_attr_keys) style
         for n in walk_local(init_a.node):
@@ -200,7 +229,20 @@ def siblings(rep):
     rep.need("R13", len(clo), 1, "match closure in _node_match")
     try:
         pf = M.normalise_predicate(clo[0])
-        rep.ob("O18.4", "R13", nm, pf.exact and pf.eq_over == {nm.params[0]} and not pf.ge and not pf.other, f"match({', '.join(pf.params)})",
+        # the key list the closure runs over is the factory's parameter (possibly frozen into a tuple under another name)
+        ndefs = local_defs(nm.node)
+
+        def key_source(name):
+            if name == nm.params[0]:
+                return name
+            ds = [d_ for d_ in ndefs.get(name, []) if d_.kind == "assign"]
+            if len(ds) == 1:
+                m_ = pmatch("tuple($p)", ds[0].value) or pmatch("list($p)", ds[0].value) or pmatch("$p", ds[0].value)
+                if m_ is not None:
+                    return m_["p"]
+            return name
+        over = {key_source(x) for x in pf.eq_over}
+        rep.ob("O18.4", "R13", nm, pf.exact and over == {nm.params[0]} and not pf.ge and not pf.other, f"match({', '.join(pf.params)})",
                "the matcher closure is equality on every configured key", {"eq_over": sorted(pf.eq_over), "exact": pf.exact})
     except Undecided as exc:
         rep.ob("O18.4", "R13", nm, None, "match", str(exc))
@@ -365,8 +407,12 @@ def counts(rep):
         l2 = enclosing_loops(parent_map(co.node), un[0], co.node)
         if m and len(l2) == 2:
             it = pmatch("$m.items()", l2[0].iter)
+            o_it, o_tg = l2[1].iter, l2[1].target
+            if isinstance(o_it, ast.Call) and call_name(o_it) == "enumerate" and o_it.args and isinstance(o_tg, ast.Tuple) and len(o_tg.elts) == 2:
+                o_it, o_tg = o_it.args[0], o_tg.elts[1]  # a counted loop over the same mappings
             ok = it is not None and (pmatch("($s, $d)", l2[0].target, m) is not None or pmatch("($d, $s)", l2[0].target, m) is not None) \
-                and norm(l2[1].target) == it["m"] and norm(l2[1].iter) == maps_p
+                and norm(o_tg) == it["m"] and norm(o_it) == maps_p \
+                and not [x for x in walk_local(l2[1]) if isinstance(x, (ast.Break, ast.Continue, ast.Return))]
     rep.ob("O18.5", "SHAPE", co, ok, un[0] if un else "union(src, dst)", "each node is merged with its image under every mapping (orbits = exchangeability classes)")
     bk = [n for n in walk_local(co.node) if isinstance(n, ast.For) and norm(n.iter) == nodes_p]
     rep.ob("O18.5", "SHAPE", co, bool(bk), bk[0].iter if bk else "for n in nodes", "every node of the view is assigned to an orbit")
